@@ -51,20 +51,21 @@ def cli_keys(mod_prefix, names, **kw):
     return out
 
 
-def enter_set(prefix, tags, n=3, **kw):
+def enter_set(prefix, tags, n=3, quick_nohelp=(2,), history_quick=(3,), **kw):
     """Enter-class harnesses.  The handler-side oracle runs with a zero-sized history
     buffer (cfg vp_h0), one instance per line length (a constant length lets the
     loops over the line fold); the history side of Enter is decided separately from
-    an arbitrary history state (key_enter_history_v*).  Together with C10's push step
-    this covers Enter from any CliInv state; each half alone fits into memory."""
+    an arbitrary history state with a fixed line (key_enter_history_v*).  Together with
+    C10's push step this covers Enter from any CliInv state; each half alone fits into
+    memory.  The quick tier (15 min cap per check) keeps the default-feature instances
+    of every length, one instance of the build without `help`, and the history instance
+    whose line is rejected; the rest is thorough."""
     out = []
     for v in range(0, n + 1):
-        out.append(H("%s_v%d" % (prefix, v), tags=tags, cfg=["vp_h0"], bounds="Enter from ANY editor state with a line of exactly %d bytes (N=3), history buffer of size 0, three prompts; handler view compared on call count and command name" % v, timeout=2400, mem=10, **kw))
-        out.append(H("%s_v%d" % (prefix, v), tags=tags, cfg=["vp_h0"], features=["history", "autocomplete"], bounds="same, build without `help`: handler view compared item by item", timeout=2400, mem=10, **kw))
-    # history side of Enter: N=3 with a 2-byte history buffer (empty, or one 1-byte entry:
-    # recorded / duplicate / evicted / too long); larger history states are C10's push step
+        out.append(H("%s_v%d" % (prefix, v), tags=tags, cfg=["vp_h0"], bounds="Enter from ANY editor state with a line of exactly %d bytes (N=3), history buffer of size 0, three prompts; handler view compared on call count and command name" % v, timeout=2400, mem=7, **kw))
+        out.append(H("%s_v%d" % (prefix, v), tags=tags, cfg=["vp_h0"], features=["history", "autocomplete"], tier=("both" if v in quick_nohelp else "thorough"), bounds="same, build without `help`: handler view compared item by item", timeout=2400, mem=6, **kw))
     for v in (1, 2, 3):
-        out.append(H("cli_steps::key_enter_history_v%d" % v, tags=tags, bounds="Enter with the fixed line `%s` from ANY history state (H=3) and any cursor / prompt: history side" % ("abc"[:v]), timeout=2400, mem=10, **kw))
+        out.append(H("cli_steps::key_enter_history_v%d" % v, tags=tags, tier=("both" if v in history_quick else "thorough"), bounds="Enter with the fixed line `%s` from ANY history state (H=3) and any cursor / prompt: history side" % ("abc"[:v]), timeout=2400, mem=8, **kw))
     return out
 
 
@@ -242,10 +243,10 @@ PROPS["C11"] = {
 }
 
 PROPS["C12"] = {
-    "claim": "HelpRequest::from_command on every argument token buffer of <= 6 (quick) / 8 (thorough) well-formed bytes, for the name `help` and for another name: All iff `help` alone; Command(first value, rest) iff `help` + value; for other names Some iff an option before any `--` is --help or a cluster containing h",
+    "claim": "HelpRequest::from_command on every argument token buffer of <= 6 (quick) / 8 (thorough) well-formed bytes, of exactly 0..4 bytes (quick) / up to 8 (thorough), for the name `help` and for another name: All iff `help` alone; Command(first value, rest) iff `help` + value; for other names Some iff an option before any `--` is --help or a cluster containing h",
     "assumptions": ["`help` followed directly by an option or `--` is left open by the statement"],
     "harnesses": [
-    ] + [H("c12_help::c12_request_predicate_n%d" % n, bounds="every well-formed token buffer of exactly %d bytes, name in {help, led}" % n, timeout=1800, mem=5) for n in range(0, 7)] + [
+    ] + [H("c12_help::c12_request_predicate_n%d" % n, bounds="every well-formed token buffer of exactly %d bytes, name in {help, led}" % n, tier=("both" if n <= 4 else "thorough"), timeout=1800, mem=5) for n in range(0, 7)] + [
         H("c12_help::c12_request_predicate_n7", tier="thorough", cfg=["vp_thorough"], bounds="token buffer of exactly 7 bytes", timeout=3400, mem=10),
         H("c12_help::c12_request_predicate_n8", tier="thorough", cfg=["vp_thorough"], bounds="token buffer of exactly 8 bytes", timeout=3400, mem=12),
     ] + routing_set(["C12"]) + [
@@ -283,9 +284,9 @@ PROPS["C01"] = {
     ] + enter_set("cli_steps::key_enter", ["C01"]) + [
     ] + routing_set(["C01", "C12"]) + [
         H("cli_steps::api_build", tags=["C01"], bounds="CliBuilder::build() with each of the three prompts"),
-        H("cli_glue::glue_ascii_v1", tags=["C01"], features=[], cfg=["vp_h0"], nodebug=True, bounds="process_byte(b) vs accept(b) + per-key entry: ANY editor state with a 1-byte line (N=3), ANY decoder state, every byte < 0x80; optional features off", timeout=2400, mem=12),
+        H("cli_glue::glue_ascii_v1", tags=["C01"], features=[], cfg=["vp_h0"], nodebug=True, bounds="process_byte(b) vs accept(b) + per-key entry: ANY editor state with a 1-byte line (N=3), ANY decoder state, every byte < 0x80; optional features off", timeout=2400, mem=8),
         H("cli_glue::glue_ascii", tier="thorough", optional=True, tags=["C01"], features=[], cfg=["vp_h0"], nodebug=True, bounds="process_byte(b) vs accept(b) + per-key entry: ANY editor state (N=3), ANY decoder state, every byte < 0x80; optional features off (process_byte has no cfg gate - checked textually)", timeout=2400, mem=12),
-        H("cli_steps::key_enter_twin", kind="twin", cfg=["vp_h0"], mem=10),
+        H("cli_steps::key_enter_twin", kind="twin", cfg=["vp_h0"], mem=6),
     ],
 }
 
@@ -293,11 +294,11 @@ PROPS["C15"] = {
     "claim": "after every successful Cli-level step (every key incl. Enter, from ANY CliInv state, N=3,H=3) the counting sink has no unflushed byte",
     "assumptions": CLI_ASSUME,
     "harnesses": cli_keys("cli_steps", CHEAP, tags=["C15"], timeout=900, mem=4) + [
-    ] + [h for h in enter_set("cli_steps::key_enter", ["C15"]) if "features" not in h] + [
+    ] + [h for h in enter_set("cli_steps::key_enter", ["C15"]) if "features" not in h and "history" not in h["name"]] + [
         H("cli_steps::api_write_set_prompt", tags=["C15", "C13"], bounds="Cli::set_prompt / Cli::write(write_str|writeln_str of <= 2 bytes over {x, LF}) from ANY CliInv state", timeout=900, mem=4),
         H("cli_steps::api_build", tags=["C15"], bounds="CliBuilder::build() with each of the three prompts"),
     ] + routing_set(["C15"]) + [
-        H("cli_steps::key_enter_twin", kind="twin", cfg=["vp_h0"], mem=10),
+        H("cli_steps::key_enter_twin", kind="twin", cfg=["vp_h0"], mem=6),
     ],
 }
 
@@ -308,7 +309,7 @@ PROPS["C09"] = {
         "assumed away (statement silent): an option name directly followed by another option, by `--` or by the end of the line; a value-taking option given twice",
         "f32/f64 and the wider integer types are outside the claim",
     ],
-    "harnesses": [H("c09_derive::n%d::%s" % (n, v), tier=("both" if ((v.startswith("p1_") and v != "p1_exit" and n == 4) or (v == "p1_exit" and n <= 5)) else "thorough"), cfg=(["vp_thorough"] if n == 6 else []), bounds="%s, every well-formed token buffer of exactly %d bytes" % (d, n), timeout=3000, mem=8)
+    "harnesses": [H("c09_derive::n%d::%s" % (n, v), tier=("both" if ((v.startswith("p1_") and v != "p1_exit" and n == 3) or (v == "p1_exit" and n <= 5)) else "thorough"), cfg=(["vp_thorough"] if n == 6 else []), bounds="%s, every well-formed token buffer of exactly %d bytes" % (d, n), timeout=3000, mem=8)
                   for n in range(0, 7)
                   for (v, d) in [("p1_exit", "unit variant"),
                                  ("p1_led", "positional u8 + Option<u8> option (-l/--lv) + flag with generated short and explicit long (-v/--loud)"),
@@ -324,7 +325,7 @@ PROPS["C09"] = {
     ],
 }
 
-SHOW_KEYS = ["show_backspace", "show_forward", "show_back", "show_up", "show_down", "show_tab", "show_char1", "show_char2", "show_char3"]
+SHOW_KEYS = ["show_backspace", "show_forward", "show_back", "show_up", "show_tab", "show_char1", "show_char2", "show_char3"]
 
 PROPS["C06"] = {
     "claim": "coupling invariant Show(cli, terminal): with an ECMA-48 subset terminal emulator as the sink (printable scalars, CR, LF, CSI C/D/P/@/2K; anything else is an error), constructed so that it shows prompt + line with the cursor at the editor's cursor for an ARBITRARY CliInv state (N=3,H=3, three prompts incl. a multi-byte one), one step of every key (typed scalar of 1-3 bytes inside / at the end / rejected, Backspace, Left, Right, Up, Down, Tab, Enter with a handler that writes nothing / writes text / changes the prompt), Cli::write and Cli::set_prompt leaves the terminal showing prompt + line with the cursor at the editor's cursor again; by induction at every moment of every session",
@@ -332,11 +333,12 @@ PROPS["C06"] = {
         "every scalar has display width 1 (the property's own quantifier); DEL is excluded from lines and typed characters",
         "terminal width is larger than prompt + N + 2 cells (no wrapping)",
     ],
-    "harnesses": cli_keys("cli_term", SHOW_KEYS, tags=["C06"], timeout=1200, mem=5) + [
-    ] + [H("cli_term::show_enter_" + c, tags=["C06", "C13"], cfg=["vp_h0"], tier=("both" if c in ("v0_silent", "v2_silent", "v2_x", "v2_xlf", "v2_prompt", "v1_x", "v3_xlf") else "thorough"),
+    "harnesses": cli_keys("cli_term", SHOW_KEYS, tags=["C06"], timeout=1200, mem=5) + cli_keys("cli_term", ["show_down"], tags=["C06"], tier="thorough", timeout=1200, mem=5) + [
+        H("cli_term::show_cli_write_quick", tags=["C06", "C13"], cfg=["vp_h0"], bounds="Cli::write(write_str(x)) from ANY editor state with a 2-byte line and any cursor (N=3), prompt `$ `: the sink receives exactly the expected transcript (part 2: term_redraw_lemma)", timeout=1800, mem=6),
+    ] + [H("cli_term::show_enter_" + c, tags=["C06", "C13"], cfg=["vp_h0"], tier=("both" if c in ("v0_silent", "v2_x", "v2_prompt") else "thorough"),
            bounds="Enter from ANY editor state (N=3, history buffer of size 0), line length / handler behaviour `%s` (silent, writes x / x+LF / LF / x+LF+x, changes the prompt): the sink receives exactly the expected transcript (part 2: term_enter_lemma)" % c, timeout=2400, mem=8)
          for c in ("v0_silent", "v1_silent", "v1_x", "v1_prompt", "v2_silent", "v2_x", "v2_xlf", "v2_lf", "v2_xlfx", "v2_prompt", "v3_silent", "v3_x", "v3_xlf", "v3_prompt")] + [
-    ] + [H("cli_term::show_cli_write_v%d_p%d" % (v, pr), tags=["C06", "C13"], cfg=["vp_h0"], bounds="Cli::write(write_str of one of \"\", x, x+LF, LF, x+LF+x) from ANY editor state with a line of exactly %d bytes (N=3), prompt %s: the sink receives exactly the expected transcript (part 2: term_redraw_lemma)" % (v, ["empty", "", "e-acute> "][pr]), tier=("both" if (v, pr) in ((1, 0), (2, 2), (3, 2)) else "thorough"), timeout=2400, mem=8) for v in range(0, 4) for pr in (0, 2)] + [
+    ] + [H("cli_term::show_cli_write_v%d_p%d" % (v, pr), tags=["C06", "C13"], cfg=["vp_h0"], bounds="Cli::write(write_str of one of \"\", x, x+LF, LF, x+LF+x) from ANY editor state with a line of exactly %d bytes (N=3), prompt %s: the sink receives exactly the expected transcript (part 2: term_redraw_lemma)" % (v, ["empty", "", "e-acute> "][pr]), tier="thorough", timeout=2400, mem=8) for v in range(0, 4) for pr in (0, 2)] + [
         H("cli_term::term_enter_lemma", tags=["C06", "C13"], bounds="harness-side lemma: the byte transcript of Enter (any of 5 output texts, any prompt) fed to the terminal emulator from ANY Show state leaves the submitted line on its row, the output below it and a fresh row with the prompt", timeout=1800, mem=8),
         H("cli_term::term_redraw_lemma", tags=["C06", "C13"], bounds="harness-side lemma: the byte transcript of Cli::write, for ANY CliInv line/cursor/prompt and any of the 5 output texts, fed to the terminal emulator from ANY terminal state, displays prompt + line with the cursor at the editor's cursor", timeout=1800, mem=8),
         H("cli_term::show_set_prompt", tags=["C06"], bounds="Cli::set_prompt(any of three prompts) from ANY CliInv state", timeout=1200, mem=5),
@@ -350,7 +352,7 @@ PROPS["C14"] = {
     "claim": "with a sink that fails at a SYMBOLIC call position (write and flush calls counted together; once or permanently), every Cli-level step from ANY CliInv state (N=3,H=3): the call returns Err iff the sink failed during it; editor and decoder are restored; the line is as before, as the key would have left it, or cleared; CliInv holds afterwards (so later input is decoded normally and a later Enter dispatches only typed text, by C01/C05 induction)",
     "assumptions": CLI_ASSUME + ["handler output is one of: nothing, write_str(\"o\"), writeln_str(\"o\")"],
     "harnesses": cli_keys("cli_fail", FAIL_KEYS, tags=["C14"], timeout=1200, mem=5) + [
-    ] + [H("cli_fail::fail_enter_v%d" % v, tags=["C14"], cfg=["vp_h0"], bounds="Enter from ANY editor state with a line of exactly %d bytes (N=3, history buffer of size 0), handler writes nothing / \"o\" / \"o\"+newline, fault at any call position" % v, timeout=2400, mem=10) for v in range(0, 4)] + [
+    ] + [H("cli_fail::fail_enter_v%d" % v, tags=["C14"], cfg=["vp_h0"], bounds="Enter from ANY editor state with a line of exactly %d bytes (N=3, history buffer of size 0), handler writes nothing / \"o\" / \"o\"+newline, fault at any call position" % v, tier=("both" if v in (0, 2) else "thorough"), timeout=2400, mem=8) for v in range(0, 4)] + [
         H("cli_fail::fail_cli_write", tags=["C14"], bounds="Cli::write / Cli::set_prompt from ANY CliInv state, fault at any call position", timeout=1200, mem=5),
         H("cli_fail::fail_process_error", tags=["C14"], bounds="the `error:` line for three kinds of parse error (every scalar as short option), fault at any call position", timeout=1200, mem=5),
     ] + [H("cli_fail::fail_group_help_" + k, tags=["C14", "C12"], bounds="help request %s on a derived two-member command group, sink failing at that call (once or permanently: symbolic); request and position are constants" % k, timeout=1200, mem=5)
@@ -379,7 +381,7 @@ def _c16():
                 hs.append(H("cli_steps::" + r_, features=feats, tags=["C16", "C01", "C12", "C15"], bounds="features {%s}: process_input on template %s" % (label, r_[8:]), timeout=1200, mem=5))
             if len(feats) in (0, 3) or feats == ["help"]:
                 hs.append(H("cli_steps::key_enter_v2", features=feats, cfg=["vp_h0"], tags=["C16", "C01", "C15"], bounds="features {%s}: Enter, line of 2 bytes, N=3, history buffer of size 0" % label, timeout=2400, mem=10))
-    hs.append(H("cli_steps::key_enter_twin", kind="twin", cfg=["vp_h0"], mem=10))
+    hs.append(H("cli_steps::key_enter_twin", kind="twin", cfg=["vp_h0"], mem=6))
     return hs
 
 
@@ -404,8 +406,10 @@ def _c03():
                 if "char" in k:
                     d["nodebug"] = True
                 if "enter" in k:
-                    d["mem"] = 12
+                    d["mem"] = 8
                     d["timeout"] = 2400
+                if k == "enter_plain_v1":
+                    d["tier"] = "thorough"
                 hs.append(H("cli_steps::" + k, **d))
     # component harnesses whose buffers have symbolic / boundary sizes
     hs += [
@@ -424,7 +428,7 @@ def _c03():
         H("c04_decoder::c04_decoder_step", tags=["C03"], bounds="any decoder state x every byte", exhaustive=True),
         H("c17_scalars::c17_pop_front", tags=["C03"], bounds="char_pop_front on every pair of scalars (from_u32_unchecked precondition)", exhaustive=True),
         H("c07_tokens::c07_tokens_vs_model_n6", tags=["C03"], bounds="in-place tokenisation of every line of exactly 6 bytes", timeout=900, mem=4),
-        H("cli_steps::key_enter_twin", kind="twin", cfg=["vp_h0"], mem=10),
+        H("cli_steps::key_enter_twin", kind="twin", cfg=["vp_h0"], mem=6),
     ]
     return hs
 
